@@ -36,6 +36,7 @@ structure Tables where
   locateTable : List (Intro.GoT × String)
   metaLiteral : String
   sdlEmptyTokenSpins : Bool
+  exeVarTypeOptional : Bool
 
 /-- snapshot of `Gen/Tables.lean` at the pinned commit -/
 def pinnedValueTbl : ValueText.Tbl :=
@@ -162,6 +163,6 @@ def pinnedTables : Tables :=
     outTime := Pinned.coerceOutTime, inTime := Pinned.coerceInTime,
     introTable := pinnedIntroTable,
     locateTable := [(.enum, "ENUM"), (.iface, "INTERFACE"), (.input, "INPUT_OBJECT"), (.object, "OBJECT"), (.scalar, "SCALAR"), (.union, "UNION")],
-    metaLiteral := "Query", sdlEmptyTokenSpins := true }
+    metaLiteral := "Query", sdlEmptyTokenSpins := true, exeVarTypeOptional := true }
 
 end Ggql.Driver
